@@ -101,6 +101,7 @@ type LTA struct {
 	regRemove *ssa.Function
 	applyMW   *ssa.Function
 	invokeFn  *ssa.Function
+	roleName  map[string]string // function name -> role label (set by findProcRoles)
 	memo      map[string]*lsummary
 	inprog    map[string]bool
 	roundSeen map[string]bool
@@ -952,6 +953,35 @@ func (a *LTA) refine(fr *lframe, c ssa.Value, taken bool) {
 	}
 }
 
+// roleKey rewrites the abstract call stack inside a finding key in terms of roles (Start, Invoke, their
+// recover handlers, the restart / stop / delivery functions) and drops frames without a role, so that a
+// renamed function or an extracted helper does not turn a known finding into a new one.
+func (a *LTA) roleKey(k string) string {
+	if a.roleName == nil {
+		return k
+	}
+	i := strings.Index(k, ":")
+	if i < 0 {
+		return k
+	}
+	head, rest := k[:i+1], k[i+1:] // "kind@driver:" , "f>g>h:event"
+	j := strings.LastIndex(rest, ":")
+	event := ""
+	stack := rest
+	if j >= 0 {
+		stack, event = rest[:j], rest[j:]
+	}
+	var out []string
+	for _, fn := range strings.Split(stack, ">") {
+		if r, ok := a.roleName[fn]; ok {
+			if len(out) == 0 || out[len(out)-1] != r {
+				out = append(out, r)
+			}
+		}
+	}
+	return head + strings.Join(out, ">") + event
+}
+
 // export turns the engine's findings of the given kinds into obligations of rule.
 func (a *LTA) export(r *Report, rule string, kinds []string, what string) {
 	a.exportIf(r, rule, kinds, what, nil)
@@ -975,7 +1005,7 @@ func (a *LTA) exportIf(r *Report, rule string, kinds []string, what string, keep
 				continue
 			}
 			n++
-			r.Fail(rule, k, what+" ["+kind+"]", a.w.pos(f.Pos), "abstract path: "+f.Stack+"  state="+f.State)
+			r.Fail(rule, a.roleKey(k), what+" ["+kind+"]", a.w.pos(f.Pos), "abstract path: "+f.Stack+"  state="+f.State)
 		}
 		if n == 0 {
 			r.OK(rule, "lta:"+kind, fmt.Sprintf("%s [%s]: none on any abstract path (%d summaries, %d live states, %d rounds)", what, kind, a.stats.summaries, a.stats.states, a.stats.rounds),
